@@ -79,6 +79,7 @@ fn dispatch(driver: &str, a: &Args) {
         "c15" => dur::run(&a),
         "c16" => strt::run(&a),
         "probe" => strt::probe(&a),
+        "zoneevents" => strt::zoneevents(&a),
         "probeiter" => strt::probeiter(&a),
         "probetzif" => strt::probetzif(&a),
         "probetz" => strt::probetz(&a),
